@@ -82,3 +82,20 @@ def note_engine(run, E):
         run.inlined.add(q)
     for m in sorted(E.used_models):
         run.trust("model:" + m)
+
+
+def par_cases(run, E, cases, fn):
+    """fn(case) -> list of Obligations; cases are explored in parallel worker processes.
+    Obligations come back frozen (SMT-LIB text + metadata)."""
+    def job(i):
+        E.inlined.clear()
+        E.used_models.clear()
+        p0 = E.stats["paths"]
+        obls = fn(cases[i]) or []
+        return ([o.freeze() for o in obls], sorted(E.inlined), sorted(E.used_models), E.stats["paths"] - p0)
+    for frozen, inl, used, npaths in core.par_map(job, len(cases)):
+        for d in frozen:
+            run.add(Obligation.thaw(d))
+        E.inlined.update(inl)
+        E.used_models.update(used)
+        E.stats["paths"] += npaths
